@@ -7,6 +7,10 @@
   (2) the einsum-backend tt_matrix_to_tensor is run from its current source with `tl` replaced by a recorder (exactly one einsum call and
       one transpose call allowed) for 1..5 cores; Coq checks that the recorded equation is, up to a renaming of the labels, the equation
       Model/Factorized.ein_chain implements (ttm_equation N) and that the recorded axes are ttm_transposition N.
+Tie levels (round 7): a regenerated program that is not the reference program letter for letter may be SIMILAR to it (Model/FactorizedSrc2.v: same
+set of raising conditions up to re-ordering, operand order, `not ==` for `!=`, truthiness; Proofs24 proves the same interpretation on every
+input, so the link theorem is re-proved); a chain / Tucker program that is neither is compared with the reference program on a finite box of
+shape lists (bounded evidence, reported as such).
 Fail closed: a construct the translator does not know, a second einsum call, a mismatch ... is a broken tie, never ignored."""
 import ast, os, shutil, subprocess
 from harness import common as C
@@ -570,8 +574,19 @@ def record_ttm_equation(repo, n_cores):
 
 
 HEAD = """From Coq Require Import List Arith Bool. Import ListNotations.
-From TLV Require Import Base.Tensor Base.Ops Model.Factorized Model.FactorizedSrc Proofs.FactorizedProofs22.
+From TLV Require Import Base.Tensor Base.Ops Model.Factorized Model.FactorizedSrc Model.FactorizedSrc2 Proofs.FactorizedProofs22 Proofs.FactorizedProofs24.
 """
+
+
+def tie_proof(key, same, sim, link, intro, box=None):
+    """the regenerated program is (1) the reference program, or (2) similar to it (Proofs24: same interpretation on every input), or,
+    where a box exists, (3) has the same interpretation on the finite box (the right disjunct: bounded evidence only)"""
+    br = [f'left; assert (E : {same}) by reflexivity; idtac "@@C03-TIE {key} syntactic"; {intro}; rewrite E; apply {link}',
+          f'left; assert (E : {sim[0]} = true) by (vm_compute; reflexivity); idtac "@@C03-TIE {key} similar"; {intro}; rewrite ({sim[1]} _ _ E); apply {link}']
+    if box:
+        br.append("right; vm_compute; reflexivity")
+    return "Proof.\n  first [ " + "\n        | ".join(br) + " ].\nQed.\n"
+
 
 
 def coq_source(progs, eqs, tk=None, cp=None, p2=None):
@@ -579,25 +594,25 @@ def coq_source(progs, eqs, tk=None, cp=None, p2=None):
     for key, p in progs.items():
         _, _, ref, val, _ = VALIDATORS[key]
         s += f"Definition {key}_prog_src : chainprog := {prog_lit(p)}.\n"
-        s += f"Lemma {key}_src_same : {key}_prog_src = {ref}. Proof. reflexivity. Qed.\n"
-        s += (f"Theorem {key}_src_link : forall (F : Type) (cs : list (tensor F)), run_chain {key}_prog_src (map (@shape F) cs) = {val} cs.\n"
-              f"Proof. intros F cs. rewrite {key}_src_same. apply {ref}_link. Qed.\nPrint Assumptions {key}_src_link.\n")
+        s += (f"Lemma {key}_src_link : (forall (F : Type) (cs : list (tensor F)), run_chain {key}_prog_src (map (@shape F) cs) = {val} cs) \\/ chain_box_eqb {key}_prog_src {ref} = true.\n"
+              + tie_proof(key, f"{key}_prog_src = {ref}", (f"chainprog_sim {key}_prog_src {ref}", "run_chain_sim"), f"{ref}_link", "intros F cs", box=True)
+              + f"Print Assumptions {key}_src_link.\n")
     if tk is not None:
         s += f"Definition tucker_prog_src : tkprog := {tk_lit(tk)}.\n"
-        s += "Lemma tucker_src_same : tucker_prog_src = tucker_prog. Proof. reflexivity. Qed.\n"
-        s += ("Theorem tucker_src_link : forall (F : Type) (core : tensor F) (fs : list (tensor F)), run_tk tucker_prog_src (shape core) (map (@shape F) fs) = validate_tucker core fs.\n"
-              "Proof. intros F core fs. rewrite tucker_src_same. apply tucker_prog_link. Qed.\nPrint Assumptions tucker_src_link.\n")
+        s += ("Lemma tucker_src_link : (forall (F : Type) (core : tensor F) (fs : list (tensor F)), run_tk tucker_prog_src (shape core) (map (@shape F) fs) = validate_tucker core fs) \\/ tk_box_eqb tucker_prog_src tucker_prog = true.\n"
+              + tie_proof("tucker", "tucker_prog_src = tucker_prog", ("tkprog_sim tucker_prog_src tucker_prog", "run_tk_sim"), "tucker_prog_link", "intros F core fs", box=True)
+              + "Print Assumptions tucker_src_link.\n")
     if cp is not None:
         s += f"Definition cp_prog_src : cpprog := {cp_lit(cp)}.\n"
-        s += "Lemma cp_src_same : cp_prog_src = cp_prog. Proof. reflexivity. Qed.\n"
-        s += ("Theorem cp_src_link : forall (F : Type) (w : option (tensor F)) (fs : list (tensor F)), run_cp cp_prog_src (option_map (@shape F) w) (map (@shape F) fs) = validate_cp w fs.\n"
-              "Proof. intros F w fs. rewrite cp_src_same. apply cp_prog_link. Qed.\nPrint Assumptions cp_src_link.\n")
+        s += ("Lemma cp_src_link : (forall (F : Type) (w : option (tensor F)) (fs : list (tensor F)), run_cp cp_prog_src (option_map (@shape F) w) (map (@shape F) fs) = validate_cp w fs) \\/ False.\n"
+              + tie_proof("cp", "cp_prog_src = cp_prog", ("cpprog_sim cp_prog_src cp_prog", "run_cp_sim"), "cp_prog_link", "intros F w fs")
+              + "Print Assumptions cp_src_link.\n")
     if p2 is not None:
         s += f"Definition p2_prog_src : p2prog := {p2_lit(p2)}.\n"
-        s += "Lemma p2_src_same : p2_prog_src = p2_prog. Proof. reflexivity. Qed.\n"
-        s += ("Theorem p2_src_link : forall (F : Type) (Op : Base.Ops.fops F) (w : option (tensor F)) (fs ps : list (tensor F)),\n"
-              "  run_p2 p2_prog_src (option_map (@shape F) w) (map (@shape F) fs) (map (@shape F) ps) (fun r i => orthonormalb Op (nth i ps (mk [] [])) r) = validate_parafac2 Op w fs ps.\n"
-              "Proof. intros F Op w fs ps. rewrite p2_src_same. apply p2_prog_link. Qed.\nPrint Assumptions p2_src_link.\n")
+        s += ("Lemma p2_src_link : (forall (F : Type) (Op : Base.Ops.fops F) (w : option (tensor F)) (fs ps : list (tensor F)),\n"
+              "  run_p2 p2_prog_src (option_map (@shape F) w) (map (@shape F) fs) (map (@shape F) ps) (fun r i => orthonormalb Op (nth i ps (mk [] [])) r) = validate_parafac2 Op w fs ps) \\/ False.\n"
+              + tie_proof("p2", "p2_prog_src = p2_prog", ("p2prog_sim p2_prog_src p2_prog", "run_p2_sim"), "p2_prog_link", "intros F Op w fs ps")
+              + "Print Assumptions p2_src_link.\n")
     for n, (ops, out, order, _) in eqs.items():
         ol = "[" + "; ".join(C.nat_list(o) for o in ops) + "]"
         s += f"Example ttm_equation_{n} : ttm_equation_ok {C.nat(n)} {ol} {C.nat_list(out)} {C.nat_list(order)} = true. Proof. vm_compute. reflexivity. Qed.\n"
@@ -656,7 +671,11 @@ def run_static(chk, repo=None):
         f.write(coq_source(progs, eqs, tk, cp, p2))
     p = subprocess.run(["timeout", "600", "coqc", "-w", "none", "-R", os.path.join(C.COQ, "theories"), "TLV", fn], capture_output=True, text=True, cwd=d)
     ok = p.returncode == 0 and "@@C03-SRC-OK" in p.stdout and p.stdout.count("Closed under the global context") == len(progs) + (1 if tk is not None else 0) + (1 if cp is not None else 0) + (1 if p2 is not None else 0)
+    import re as _re
+    info["tie"] = {k: "box (bounded)" for k in list(progs) + (["tucker"] if tk is not None else [])}
+    info["tie"].update({m.group(1): m.group(2) for m in _re.finditer(r"@@C03-TIE (\w+) (\w+)", p.stdout)})
     if not ok:
+        info.pop("tie", None)
         chk.broken.append({"what": "corr:C03-src: a validator program regenerated from the source differs from the reference program of Model/FactorizedSrc.v "
                                    "(or the recorded einsum equation / transposition from ttm_equation / ttm_transposition)",
                            "detail": {"programs": {k: prog_lit(v) for k, v in progs.items()}, "tucker": tk_lit(tk) if tk else None, "cp": cp_lit(cp) if cp else None, "p2": p2_lit(p2) if p2 else None, "equations": {k: v[3] for k, v in eqs.items()},
@@ -664,6 +683,10 @@ def run_static(chk, repo=None):
         info["status"] = "mismatch"
     else:
         info["status"] = "ok"
+        boxed = sorted(k for k, v in info["tie"].items() if v.startswith("box"))
+        if boxed:
+            chk.trusted.append("corr:C03-src: the validator program(s) regenerated for " + ", ".join(boxed) + " differ from the reference program beyond a re-ordering / "
+                               "re-spelling of the checks; the two interpretations were compared on a finite box of shape lists only (bounded evidence, no link theorem for the regenerated term)")
         shutil.rmtree(d, ignore_errors=True)
     chk.checker_cmds.append("coqc on the validator programs regenerated from the source (corr:C03-src): <x>_prog_src = <x>_prog, <x>_src_link; recorded einsum equations of tt_matrix_to_tensor")
     return info
